@@ -79,6 +79,8 @@ def checkPipe (c : Case) : VM Unit := do
   if rc != "ok" then vfail "C06" s!"pipeline-{rc}" s!"build=release site={rsite}"
   if !chkLines.isEmpty && cc != "ok" then vfail "C06" s!"pipeline-{cc}" s!"build=checked site={csite}"
   vstat "pipe.release-ok" (if rc == "ok" then 1 else 0)
+  vstat "c05.networks" 1
+  vstat "c05.depotnodes" (if depotNodesB nw then 1 else 0)
   vstat "pipe.checked-ok" (if cc == "ok" then 1 else 0)
   -- stage snapshots
   let stageLines (name : String) : List Toks :=
